@@ -337,7 +337,7 @@ void StatementBuilder::decl_parameter(const char* name, bool ref)
     typeFragments.pop();
 
     if (ref) {
-        type = type.create_prefix(REF);
+        type = type.create_prefix(REF, position);
     }
 
     params.add_symbol(name, type, position);
@@ -512,7 +512,7 @@ void StatementBuilder::iteration_begin(const char* name)
     /* The iterator cannot be modified.
      */
     if (!type.is(CONSTANT)) {
-        type = type.create_prefix(CONSTANT);
+        type = type.create_prefix(CONSTANT, position);
     }
 
     /* The iteration statement has a local scope for the iterator.
@@ -521,7 +521,7 @@ void StatementBuilder::iteration_begin(const char* name)
 
     /* Add variable.
      */
-    variable_t* variable = addVariable(type, name, expression_t(), position_t());
+    variable_t* variable = addVariable(type, name, expression_t(), position);
 
     /* Create a new statement for the loop. We need to already create
      * this here as the statement is the only thing that can keep the
